@@ -21,13 +21,15 @@ class C18(PropBase):
         for _ in range(nt):
             hid += 1
             base, st, ext = rng.choice(bases)
-            kind = rng.choice(['empty', 'dense', 'sparse', 'max', 'single'])
+            kind = rng.choice(['empty', 'dense', 'sparse', 'max', 'single', 'nearmax'])
             if kind == 'empty':
                 vs = []
             elif kind == 'dense':
                 vs = list(range(1, rng.randint(2, 6)))
             elif kind == 'sparse':
                 vs = sorted(rng.sample(range(0, 60), rng.randint(1, 5)))
+            elif kind == 'nearmax':
+                vs = sorted(set(rng.sample(range(985, 998), rng.randint(0, 2)) + [998]))
             elif kind == 'max':
                 vs = sorted(set(rng.sample(range(990, 1000), rng.randint(1, 3)) + [999]))
             else:
@@ -41,7 +43,7 @@ class C18(PropBase):
                     out.append(Case('w_create', ['', '%s/%s/%s/%s' % (base, ver(n), st, ext), []], 'setup', m))
                 else:
                     out.append(Case('w_create', ['', '%s/%s' % (base, ver(n)), []], 'setup', m))
-            mine = rng.choice(vs) if vs and rng.random() < 0.6 else rng.randint(0, 999)
+            mine = (max(vs) if rng.random() < 0.5 else rng.choice(vs)) if vs and rng.random() < 0.7 else rng.randint(0, 999)
             subjects = [base,                                         # task Sid (no version)
                         '%s/%s' % (base, ver(mine)),                  # version Sid
                         '%s/%s/%s' % (base, ver(mine), st),           # state Sid
@@ -53,11 +55,29 @@ class C18(PropBase):
             # publishing get_new repeatedly (on the version Sid): strictly increasing, never reused
             k = rng.randint(2, 8)
             out.append(Case('publish_chain', ['', '%s/%s' % (base, ver(mine)), str(k)], 'chain', dict(m, k=k)))
+            # files of a second state lag behind: publishing them lands in already existing version folders
+            if vs and max(vs) < 990:
+                st2 = 'p' if st == 'w' else 'w'
+                out.append(Case('w_create', ['', '%s/%s/%s/%s' % (base, ver(vs[0]), st2, ext), []], 'setup', m))
+                out.append(Case('get_last', [['s', '%s/%s/%s/%s' % (base, ver(vs[0]), st2, ext)], 'version'], 'query2', m))
+                out.append(Case('publish_chain', ['', '%s/%s/%s/%s' % (base, ver(vs[0]), st2, ext), str(min(k, 4))], 'chain2', dict(m, k=min(k, 4), start=vs[0])))
+        # a second state lagging behind in already existing version folders (search, create, search again in one process)
+        for base, st, ext in bases:
+            hid += 1
+            st2 = 'p' if st == 'w' else 'w'
+            m = {'h': hid, 'base': base, 'vs': [1, 2, 3], 'st': st, 'ext': ext}
+            out.append(Case('fs_reset', [], 'setup', m))
+            for n in (1, 2, 3):
+                out.append(Case('w_create', ['', '%s/%s/%s/%s' % (base, ver(n), st, ext), []], 'setup', m))
+            lag = '%s/%s/%s/%s' % (base, ver(1), st2, ext)
+            out.append(Case('w_create', ['', lag, []], 'setup', m))
+            out.append(Case('get_last', [['s', lag], 'version'], 'query2', m))
+            out.append(Case('get_new', [['s', lag], 'version'], 'query2', m))
+            out.append(Case('publish_chain', ['', lag, '4'], 'chain2', dict(m, k=4, start=1)))
+            out.append(Case('get_last', [['s', lag], 'version'], 'query2', m))
         out.append(Case('fs_reset', [], 'setup', {}))
         return out
     def compare(self, case, model, impl):
-        if case.op == 'publish_chain':
-            return None
         return None if model == impl else 'model and implementation differ'
     def oracle(self, case, impl, ctx):
         m = case.meta
@@ -108,6 +128,10 @@ class C18(PropBase):
                 exp = base + '/' + ver(max(vs)) if vs else ''
                 if got[0] != exp:
                     return 'get_last(%r) with existing versions %r = %r, expected %r' % (s, vs, got[0], exp)
+        if case.stream == 'chain2' and impl[0] == 'ok':
+            nums = [int(s.split('/')[-3][1:]) for s in impl[1] if s]
+            if len(set(nums)) != len(nums) or nums != sorted(nums) or (nums and nums[0] <= m['start']) or (m.get('k') == 4 and m['vs'] == [1, 2, 3] and nums != [2, 3, 4, 5]):
+                return 'publishing a lagging state repeatedly produced versions %r (start %r): reused or not increasing' % (nums, m['start'])
         if case.stream == 'chain':
             if impl[0] != 'ok':
                 return 'publishing get_new repeatedly failed: %r' % (impl,)
